@@ -223,6 +223,37 @@ def separator_violations(items, grams):
     return res
 
 
+def text_separator_violations(items, grams):
+    """A free-text field (read with getline) must be separated from the token written before it by exactly one
+    newline: the reader skips to the end of the line of the previous token and takes the next line as the text.
+    Two newlines (the previous object ends with one and the container writes another) make the text an empty
+    line and shift everything after it.  Examined on the linearised writer, loops executed twice and skipped."""
+    bad = []
+    for skip in (False, True):
+        seq = []
+        _flat(items, grams, seq, skip)
+        pending = None          # whitespace since the last token, None before the first token
+        last_tok = None
+        for kind, it in seq:
+            if kind == 'ws':
+                if pending is not None:
+                    pending += str(getattr(it, 'text', ''))
+                continue
+            if kind == 'text' and last_tok is not None and pending is not None and pending != '\n':
+                bad.append((last_tok, it, pending))
+            if kind in ('tok', 'text', 'hdr'):
+                last_tok = it
+                pending = ''
+    seen = set()
+    res = []
+    for a, b, p_ in bad:
+        key = (getattr(a, 'where', None), getattr(b, 'where', None))
+        if key not in seen:
+            seen.add(key)
+            res.append((a, b, p_))
+    return res
+
+
 def _flat(items, grams, out, skip_loops, depth=0):
     for it in items:
         if it.k == 'lit':
